@@ -28,7 +28,7 @@ DItemC == {[k |-> "none"]} \cup {Grp(k, o[1], o[2], <<El("c", "string", 1, 1), E
           \* a third SINGLE element: with a choice root this is a three-way choice (a | b | c), which libxml2 hands over
           \* as a nested binary tree OR(a, OR(b, c))
           {El("c", tp, 1, 1) : tp \in {"string", "EMPTY"}}
-Slots == << {"seq", "choice"}, DOccs, DItemA, DItemB, DItemC, 1..9, {"model", "mixed", "any"}, 0..MaxDocIdx >>
+Slots == << {"seq", "choice"}, DOccs, DItemA, DItemB, DItemC, 1..10, {"model", "mixed", "any"}, 0..MaxDocIdx >>
 NSlots == Len(Slots)
 Init == parts = <<>>
 Next == Len(parts) < NSlots /\ \E c \in Slots[Len(parts) + 1] : parts' = Append(parts, c)
@@ -72,7 +72,9 @@ Corpus == {
   <<"seq", <<1, 1>>, El("item", "EMPTY", 1, U), El("Item", "Kid", 1, 1), [k |-> "none"], 3, "model">>,
   <<"choice", <<0, U>>, El("a-b", "Kid", 1, 1), El("a_b", "EMPTY", 1, 1), El("a.b", "Rec", 1, 1), 1, "model">>,
   <<"seq", <<1, 1>>, El("a", "string", 1, 1), El("b", "string", 0, 1), [k |-> "none"], 9, "model">>,                    \* lang + xml:lang, code + x:code
-  <<"choice", <<0, U>>, El("a", "EMPTY", 1, 1), El("b", "Kid", 1, 1), [k |-> "none"], 9, "mixed">> }
+  <<"choice", <<0, U>>, El("a", "EMPTY", 1, 1), El("b", "Kid", 1, 1), [k |-> "none"], 9, "mixed">>,
+  <<"seq", <<1, 1>>, El("a", "string", 1, 1), El("b", "string", 0, 1), [k |-> "none"], 10, "model">>,                   \* NMTOKENS defaults
+  <<"choice", <<1, 1>>, El("a", "EMPTY", 1, 1), El("b", "string", 1, 1), [k |-> "none"], 10, "model">> }
 InitCorpus == \E c \in Corpus, i \in 0..MaxDocIdx : parts = Append(c, i)
 
 Root == Grp(parts[1], parts[2][1], parts[2][2], <<parts[3], parts[4]>> \o (IF parts[5].k = "none" THEN <<>> ELSE <<parts[5]>>))
@@ -90,6 +92,9 @@ Attrs == CASE parts[6] = 1 -> <<>>
            [] parts[6] = 9 -> << [name |-> "lang", tp |-> "CDATA", mode |-> "IMPLIED", value |-> NONE], [name |-> "xml:lang", tp |-> "CDATA", mode |-> "IMPLIED", value |-> NONE],
                                  [name |-> "code", tp |-> "NMTOKEN", mode |-> "REQUIRED", value |-> NONE], [name |-> "x:code", tp |-> "CDATA", mode |-> "IMPLIED", value |-> NONE],
                                  [name |-> "xmlns:x", tp |-> "CDATA", mode |-> "FIXED", value |-> "urn:x"] >>
+           \* LIST-valued attributes with a declared default / #FIXED value
+           [] parts[6] = 10 -> << [name |-> "tags", tp |-> "NMTOKENS", mode |-> "DEFAULT", value |-> "alpha beta"], [name |-> "scopes", tp |-> "NMTOKENS", mode |-> "FIXED", value |-> "pub int"],
+                                  [name |-> "one", tp |-> "NMTOKENS", mode |-> "DEFAULT", value |-> "solo"], [name |-> "n", tp |-> "NMTOKEN", mode |-> "DEFAULT", value |-> "tok"] >>
            [] parts[6] = 7 -> << [name |-> "id", tp |-> "CDATA", mode |-> "REQUIRED", value |-> NONE],
                                  [name |-> "x:lang", tp |-> "CDATA", mode |-> "IMPLIED", value |-> NONE], [name |-> "y:rev", tp |-> "NMTOKEN", mode |-> "IMPLIED", value |-> NONE],
                                  [name |-> "xmlns:x", tp |-> "CDATA", mode |-> "FIXED", value |-> "urn:x"], [name |-> "xmlns:y", tp |-> "CDATA", mode |-> "FIXED", value |-> "urn:y"] >>
